@@ -25,8 +25,14 @@ CONFIGS = ["", "clean_qq", "qq_depth_min.1", "qq_depth.1", "qq_depth_max.2", "br
            "clean_qq,qq_depth.2", "clean_qq,break_halves,qq_depth_min.1", "qq_depth_min.2,qq_depth_max.3"]
 
 
+CLEAN_CONFIGS = [c for c in CONFIGS if "clean_qq" in c]
+
+
 def case():
-    return st.fixed_dictionaries({"sc": aq.spelled_chain_strategy(1, 4), "config": st.sampled_from(CONFIGS)})
+    plain = st.fixed_dictionaries({"sc": aq.spelled_chain_strategy(1, 4), "config": st.sampled_from(CONFIGS)})
+    # bare two-letter quarters anywhere in a chain are documented spellings under clean_qq
+    bare = st.fixed_dictionaries({"sc": aq.spelled_chain_strategy(1, 4, bare=True), "config": st.sampled_from(CLEAN_CONFIGS)})
+    return st.one_of(plain, plain, bare)
 
 
 def validate(c):
@@ -34,7 +40,7 @@ def validate(c):
     if not sc["chain"] or len(sc["chain"]) != len(sc["spell"]) or len(sc["joiners"]) != len(sc["chain"]) - 1:
         return False
     for comp, (fam, text) in zip(sc["chain"], sc["spell"]):
-        if comp not in aq.COMPONENTS or text.lower() not in {t.lower() for _, t in aq.spellings(comp)}:
+        if comp not in aq.COMPONENTS or text.lower() not in {t.lower() for _, t in aq.spellings(comp, bare="clean_qq" in c["config"])}:
             return False
     for (fam, text), j in zip(sc["spell"], sc["joiners"]):
         if j not in aq.JOINERS or (j == "" and text[-1] not in "24½¼"):
@@ -155,7 +161,7 @@ def oracle_bare(c):
 SUBS = [
     Sub("spellings", oracle, strategy=lambda tier: case(), validate=validate, nontrivial=nontrivial, classes=classes, render=render,
         n={"quick": 2500, "thorough": 30000}, shards={"quick": 8, "thorough": 16},
-        essential=("fam=word", "fam=bare", "fam=slash_sp", "fam=dot", "join=''", "join=' of the '", "join='\\n'", "clean_qq")),
+        essential=("fam=word", "fam=bare", "fam=slash_sp", "fam=dot", "fam=bareq", "join=''", "join=' of the '", "join=' OF THE '", "join='\\n'", "clean_qq")),
     Sub("bare_quarters", oracle_bare, enumerate=enum_bare, exhaustive=True, shards={"quick": 2, "thorough": 2},
         classes=lambda c: [c["ctx"], "clean" if c["clean_qq"] else "noclean"], render=lambda c: c),
 ]
